@@ -23,7 +23,15 @@ RULE = ("seeded generator over operator (grad, laplacian without/with grad=, div
         "following a dependence template (generic | constant | not involving the derivative variables | linear "
         "with constant coefficients | linear with coefficients depending on the other variables | bilinear | "
         "separable | product | only one of the derivative variables); non-derivative variables with and without "
-        "requires_grad. A case is non-trivial when every row of the result was compared with the validated "
+        "requires_grad; plus composed second-order calls div(grad(u)) and jac(grad(u)); plus the class 'stationary "
+        "batches': "
+        "fields that are even in one or all derivative variables (G(x_i**2,..), c(other)*sum a_i x_i**2, "
+        "cos(c.x)*g(other), exp(x)+exp(-x), x_i*x_j*g + a*x_k**2) evaluated on batches of 1-4 rows (also 2 batch axes) "
+        "in which EVERY row has those variables exactly 0.0, so the first gradient vanishes exactly over the whole batch "
+        "while second derivatives do not (laplacian all modes, partial orders 2-4, div(grad), jac(grad), and the "
+        "first-order operators). Row independence: the call is repeated with the other rows permuted / dropped / "
+        "replaced and with 1-3 fresh (non-stationary) rows appended. A case is non-trivial when every row of the "
+        "result was compared with the validated "
         "analytic value; distinct = (operator, laplacian mode, dims of the derivative variables in call order, "
         "presence of other variables, partial order, batch rank, dtype, strongest dependence template of the field).")
 REQUIRED_REACH = ["grad", "laplacian", "div", "jac", "rot", "partial", "normal_derivative", "convective",
@@ -44,7 +52,8 @@ CASE_TIMEOUT = 120
 
 OPS = ["grad", "laplacian", "div", "jac", "rot", "partial", "normal_derivative", "convective", "sym_grad",
        "matrix_div"]
-MULTI_BATCH_OPS = ("grad", "laplacian", "div", "partial", "normal_derivative")
+COMPOSITE_OPS = ["div_grad", "jac_grad"]          # div(grad(u, *v), *v) and jac(grad(u, *v), *v)
+MULTI_BATCH_OPS = ("grad", "laplacian", "div", "partial", "normal_derivative", "div_grad")
 NAMES = ["x", "t", "y", "p", "w"]
 RTOL = {"float32": 2e-4, "float64": 1e-9}
 RI_TOL = {"float32": 1e-6, "float64": 1e-12}
@@ -78,7 +87,7 @@ def _templates(rng, n, has_other, n_dvars):
     return [str(rng.choice(base)) for _ in range(n)]
 
 
-def _gen_one(rng, op, tier, i):
+def _gen_one(rng, op, tier, i, stationary=False):
     deep = tier != "quick"
     names = list(rng.permutation(NAMES)[:3])
     nvars = int(rng.choice([1, 2, 3], p=[0.25, 0.4, 0.35]))
@@ -86,6 +95,8 @@ def _gen_one(rng, op, tier, i):
     order = None
     if op == "partial":
         order = int(rng.choice([1, 2, 3, 4], p=[0.3, 0.35, 0.2, 0.15]))
+        if stationary:
+            order = int(rng.choice([2, 3, 4], p=[0.6, 0.25, 0.15]))
         k1 = int(rng.integers(1, nvars + 1))           # at least one one-dimensional variable
         for j in rng.permutation(nvars)[:k1]:
             dims[int(j)] = 1
@@ -118,7 +129,14 @@ def _gen_one(rng, op, tier, i):
     dleaves = [l for g in groups for l in g]
     oleaves = [[v[0], j] for v in vars_ if v[0] not in dorder for j in range(v[1])]
     ntot = len(dleaves) if op != "partial" else 1
-    if op in ("grad", "laplacian", "partial", "normal_derivative"):
+    stat = []
+    if stationary:
+        # variables whose coordinates are exactly 0.0 in EVERY row; the field is even in them
+        stat = list(dorder) if rng.random() < 0.3 else [dorder[int(rng.integers(len(dorder)))]]
+        if op == "partial" and rng.random() < 0.7:
+            deriv[0] = deriv[1] = stat[0]            # second derivative w.r.t. the stationary variable first
+            stat = [n for n in stat if n in deriv]
+    if op in ("grad", "laplacian", "partial", "normal_derivative", "div_grad", "jac_grad"):
         shape = [1, 1]
     elif op in ("div", "sym_grad"):
         shape = [1, ntot]
@@ -134,12 +152,24 @@ def _gen_one(rng, op, tier, i):
         maxdepth = 3
     if ncomp > 4:
         maxdepth = min(maxdepth, 3)
-    tmpl = _templates(rng, ncomp, bool(oleaves), len(dorder))
     comps = []
-    for tname in tmpl:
-        depth = int(rng.integers(2, maxdepth + 1))
-        comps.append(X.gen_component(rng, tname, dleaves, oleaves, depth, groups))
-    if op in MULTI_BATCH_OPS and rng.random() < 0.35:
+    if stationary:
+        sleaves = [l for l in dleaves if l[0] in stat]
+        rest = [l for l in dleaves if l[0] not in stat] + oleaves
+        tmpl = [str(rng.choice(X.EVEN_TEMPLATES)) for _ in range(ncomp)]
+        for tname in tmpl:
+            comps.append(X.gen_even_component(rng, tname, sleaves, rest, int(rng.integers(2, min(maxdepth, 3) + 1))))
+    else:
+        tmpl = _templates(rng, ncomp, bool(oleaves), len(dorder))
+        for tname in tmpl:
+            depth = int(rng.integers(2, maxdepth + 1))
+            comps.append(X.gen_component(rng, tname, dleaves, oleaves, depth, groups))
+    if stationary:
+        if op in MULTI_BATCH_OPS and rng.random() < 0.25:
+            batch = [int(rng.integers(1, 3)), int(rng.integers(1, 3))]
+        else:
+            batch = [int(rng.choice([1, 1, 2, 3, 4]))]
+    elif op in MULTI_BATCH_OPS and rng.random() < 0.35:
         batch = [int(rng.integers(1, 5)), int(rng.integers(1, 5))]
     else:
         batch = [int(rng.choice([1, 2, 3, 4, 5, 6, 7, 9, 12]))]
@@ -149,6 +179,8 @@ def _gen_one(rng, op, tier, i):
     c["layout"] = "view" if rng.random() < 0.3 else "own"   # "view": variables are column slices of one tensor
     if op == "laplacian":
         c["mode"] = str(rng.choice(["plain", "grad=", "grad=autograd"], p=[0.45, 0.35, 0.2]))
+    if stat:
+        c["stationary"] = stat
     return c
 
 
@@ -163,6 +195,17 @@ def gen_cases(seed, tier):
     for i in range(n):
         op = OPS[i % len(OPS)] if i < 3 * len(OPS) else str(rng.choice(OPS, p=w))
         cases.append(_gen_one(rng, op, tier, i))
+    # composed second-order calls: div(grad(u, ..), ..) and jac(grad(u, ..), ..)
+    rng2 = np.random.default_rng([seed, 3, 1])
+    for i in range(40 if tier == "quick" else 1000):
+        cases.append(_gen_one(rng2, COMPOSITE_OPS[i % 2], tier, i))
+    # stationary batches: ALL rows exactly at a stationary point of the field in the chosen variable(s)
+    rng3 = np.random.default_rng([seed, 3, 2])
+    sops = ["laplacian"] * 8 + ["partial"] * 4 + ["div_grad"] * 2 + ["jac_grad"] * 2 + \
+           ["grad", "div", "jac", "normal_derivative", "sym_grad", "convective", "matrix_div", "rot"]
+    for i in range(160 if tier == "quick" else 4000):
+        op = sops[i % len(sops)] if i < len(sops) else str(rng3.choice(sops))
+        cases.append(_gen_one(rng3, op, tier, i, stationary=True))
     return cases
 
 
@@ -175,12 +218,19 @@ def _cls(c):
     dd = "".join(str(dim_of[n]) for n in c["deriv"])
     other = sum(1 for v in c["vars"] if v[0] not in c["deriv"])
     order = len(c["deriv"]) if c["op"] == "partial" else 0
+    dep = _zero_class(c)
+    if c.get("stationary"):
+        dep = "stationary%d of %d, %s" % (len(c["stationary"]), len(set(c["deriv"])),
+                                          "1row" if int(np.prod(c["batch"])) == 1 else "rows")
     return "%s/%s/d%s+%d/o%d/b%d/%s/%s" % (c["op"], c.get("mode", "-"), dd if not order else "1" * len(set(c["deriv"])),
-                                            min(other, 1), order, len(c["batch"]), c["dtype"][-2:], _zero_class(c))
+                                            min(other, 1), order, len(c["batch"]), c["dtype"][-2:], dep)
 
 
 def _points(c, rng, batch):
-    return {v[0]: rng.uniform(-1.0, 1.0, size=(*batch, v[1])) for v in c["vars"]}
+    P = {v[0]: rng.uniform(-1.0, 1.0, size=(*batch, v[1])) for v in c["vars"]}
+    for name in c.get("stationary", []):             # every row exactly at the stationary point
+        P[name] = np.zeros_like(P[name])
+    return P
 
 
 def _round(P, dtype):
@@ -204,9 +254,12 @@ def _build_reference(c):
     plan = {"S": S, "F": F}
     if op in ("grad", "normal_derivative"):
         plan["G"] = [ref.d(F[0][0], s) for s in S]
-    elif op == "laplacian":
+    elif op in ("laplacian", "div_grad"):
         plan["G"] = [ref.d(F[0][0], s) for s in S]
         plan["H"] = [ref.d(g, s) for g, s in zip(plan["G"], S)]
+    elif op == "jac_grad":
+        plan["G"] = [ref.d(F[0][0], s) for s in S]
+        plan["J"] = [[ref.d(g, s) for s in S] for g in plan["G"]]          # Hessian
     elif op == "div":
         plan["D"] = [ref.d(F[0][k], S[k]) for k in range(len(S))]
     elif op in ("jac", "rot", "convective", "sym_grad"):
@@ -234,7 +287,7 @@ def _expected(c, plan, vals, majs, extra):
         e = sum(V(g) * nrm[:, k] for k, g in enumerate(plan["G"]))
         mg = sum(M(g) * np.abs(nrm[:, k]) for k, g in enumerate(plan["G"]))
         return e[:, None], mg[:, None]
-    if op == "laplacian":
+    if op in ("laplacian", "div_grad"):
         return sum(V(h) for h in plan["H"])[:, None], sum(M(h) for h in plan["H"])[:, None]
     if op == "div":
         return sum(V(d) for d in plan["D"])[:, None], sum(M(d) for d in plan["D"])[:, None]
@@ -246,7 +299,7 @@ def _expected(c, plan, vals, majs, extra):
         return e, mg
     J = np.stack([np.stack([V(j) for j in row], -1) for row in plan["J"]], -2)      # (N, m, n)
     JM = np.stack([np.stack([M(j) for j in row], -1) for row in plan["J"]], -2)
-    if op == "jac":
+    if op in ("jac", "jac_grad"):
         return J, JM
     if op == "sym_grad":
         return 0.5 * (J + np.swapaxes(J, 1, 2)), 0.5 * (JM + np.swapaxes(JM, 1, 2))
@@ -295,6 +348,10 @@ def _call(c, P, extra, batch):
         u = torch.cat(comps, dim=-1)
     dv = [env[nme] for nme in c["deriv"]]
     fwd = u.detach().to(torch.float64).numpy()
+    if op == "div_grad":
+        return D.div(D.grad(u, *dv), *dv), fwd
+    if op == "jac_grad":
+        return D.jac(D.grad(u, *dv), *dv), fwd
     f = getattr(D, op)
     if op == "laplacian" and c.get("mode") == "grad=":
         g = D.grad(u, *dv)
@@ -335,7 +392,7 @@ def run_case(c):
     dim_of = {v[0]: v[1] for v in c["vars"]}
     ntot = sum(dim_of[nme] for nme in c["deriv"])
     mech = {"op": op, "mode": c.get("mode", "-"), "layout": c.get("layout", "own"),
-            "n_deriv_vars": len(c["deriv"]), "batch_rank": len(batch),
+            "n_deriv_vars": len(c["deriv"]), "batch_rank": len(batch), "stationary_batch": bool(c.get("stationary")),
             "dtype": c["dtype"], "dependence": _zero_class(c),
             "deriv_dims": "".join(str(dim_of[nme]) for nme in c["deriv"])}
 
@@ -428,10 +485,18 @@ def _count_branches(c, cnt, exp):
         cnt["laplacian_calls_with_grad_argument"] = 1
     if np.all(exp == 0.0):
         cnt["cases_with_identically_zero_result"] = 1
+    if c.get("stationary"):
+        cnt["stationary_batch_cases"] = 1
+        cnt["stationary_batch_cases_" + c["op"]] = 1
+        if int(np.prod(c["batch"])) == 1:
+            cnt["stationary_batch_single_row_cases"] = 1
+        second = c["op"] in ("laplacian", "div_grad", "jac_grad") or (c["op"] == "partial" and len(c["deriv"]) >= 2)
+        if second and np.any(exp != 0.0):
+            cnt["stationary_batch_cases_with_nonzero_second_derivative"] = 1
 
 
 def _row_independence(c, rng, P, extra, batch, got, mag, res, mech):
-    """Repeat the call on batches whose other rows are permuted / dropped / replaced."""
+    """Repeat the call on batches whose other rows are permuted / dropped / replaced / joined by new rows."""
     N = int(np.prod(batch))
     cnt = res["counters"]
     tail = got.shape[1:]
@@ -478,6 +543,19 @@ def _row_independence(c, rng, P, extra, batch, got, mag, res, mech):
             fresh = _round({"a": rng.uniform(-1.0, 1.0, size=v.shape)}, c["dtype"])["a"]
             Er[name] = np.where(mask[:, None], v, fresh)
         variants.append(("replaced", Pr, Er, batch, keep, keep))
+    # augment: the same rows inside a larger batch (extra rows with fresh, non-stationary values appended)
+    k = int(rng.integers(1, 4))
+    nb = (batch[0] + k, *batch[1:])
+    nextra = k * int(np.prod(batch[1:]))
+    Pa = {}
+    for name, v in P.items():
+        fresh = _round({"a": rng.uniform(-1.0, 1.0, size=(k, *v.shape[1:]))}, c["dtype"])["a"]
+        Pa[name] = np.concatenate([v, fresh], axis=0)
+    Ea = {}
+    for name, v in extra.items():
+        fresh = _round({"a": rng.uniform(-1.0, 1.0, size=(nextra, v.shape[1]))}, c["dtype"])["a"]
+        Ea[name] = np.concatenate([v, fresh], axis=0)
+    variants.append(("augmented", Pa, Ea, nb, np.arange(N), np.arange(N)))
     for (what, P2, E2, b2, src, dst) in variants:
         try:
             out2, _ = _call(c, P2, E2, b2)
